@@ -5,6 +5,7 @@ import (
 	"go/token"
 	"go/types"
 	"sort"
+	"strings"
 
 	"golang.org/x/tools/go/ssa"
 )
@@ -196,4 +197,190 @@ func ruleOperandForwarded(c *Ctx, rule string) {
 				fmt.Sprintf("the argument %s is neither the instruction's operand (offset %v, which sibling call sites pass) nor forwarded, and no read of that operand lies on every path to the call: what the compiler encoded (spread flag, argument count) is ignored on this path", describe(a), ks))
 		}
 	}
+}
+
+// ---- C18/decoded-opaque -----------------------------------------------------------------------------------------------------------
+// DecodeObject returns whatever type the input names; containers that came
+// through gob can hold nil elements at any depth.  On the decode path a decoded
+// object is therefore only ever looked at through a type assertion / type
+// switch (which cannot panic in the comma-ok or switch form and is covered by
+// the `assert` rule otherwise), stored, or returned: no method is invoked on it.
+// `obj.String()` on a decoded Array{nil} dereferences the nil element.
+func ruleDecodedOpaque(c *Ctx, rule string, fns []*ssa.Function) {
+	l := c.L
+	dec := l.Func(encPath, "DecodeObject")
+	if !c.Anchor(rule, "encoder.DecodeObject", dec != nil) {
+		return
+	}
+	n := 0
+	for _, fn := range fns {
+		eachInstr(fn, func(ins ssa.Instruction) {
+			cl, ok := ins.(*ssa.Call)
+			if !ok || cl.Call.StaticCallee() != dec || cl.Referrers() == nil {
+				return
+			}
+			for _, r := range *cl.Referrers() {
+				ex, ok := r.(*ssa.Extract)
+				if !ok || ex.Index != 0 {
+					continue
+				}
+				n++
+				// values the object flows to without changing: phis and locals it is stored in
+				seen := map[ssa.Value]bool{}
+				var invoked []ssa.CallInstruction
+				var walk func(v ssa.Value)
+				walk = func(v ssa.Value) {
+					if seen[v] || v.Referrers() == nil {
+						return
+					}
+					seen[v] = true
+					for _, u := range *v.Referrers() {
+						switch x := u.(type) {
+						case ssa.CallInstruction:
+							if x.Common().IsInvoke() && x.Common().Value == v {
+								invoked = append(invoked, x)
+							}
+						case *ssa.Phi:
+							walk(x)
+						case *ssa.ChangeInterface:
+							walk(x)
+						case *ssa.Store:
+							if al, ok := x.Addr.(*ssa.Alloc); ok && x.Val == v && al.Referrers() != nil {
+								for _, ar := range *al.Referrers() {
+									if ld, ok := ar.(*ssa.UnOp); ok && ld.Op == token.MUL {
+										walk(ld)
+									}
+								}
+							}
+						}
+					}
+				}
+				walk(ex)
+				// a method that no Object implementation of the library lets look into
+				// its contents (TypeName: a constant string everywhere) is harmless
+				kept := invoked[:0]
+				for _, iv := range invoked {
+					if !shallowObjectMethod(l, iv.Common().Method.Name()) {
+						kept = append(kept, iv)
+					}
+				}
+				invoked = kept
+				key := fmt.Sprintf("%s | object decoded at DecodeObject call", fnName(fn))
+				if len(invoked) == 0 {
+					c.Ok(rule, key, l.Pos(cl.Pos()), "only asserted, stored or returned")
+					continue
+				}
+				var ms []string
+				for _, iv := range invoked {
+					ms = append(ms, iv.Common().Method.Name()+"() at "+l.Pos(iv.Pos()))
+				}
+				c.Bad(rule, key, l.Pos(invoked[0].Pos()), "a method is invoked on an object of whatever type the input names ("+strings.Join(ms, ", ")+"): a gob-encoded container with a nil element (Array{nil}) makes the method dereference nil - the decoder panics instead of returning an error")
+			}
+		})
+	}
+	c.extra["decoded_objects_followed"] = n
+}
+
+var shallowMemo = map[string]bool{}
+
+// shallowObjectMethod: for every type of the library packages that implements
+// ugo.Object, the method's body (with the repository functions it calls, three
+// levels deep) invokes no interface method and calls no function value: it
+// cannot reach the contents of a container.
+func shallowObjectMethod(l *Loaded, name string) bool {
+	if r, ok := shallowMemo[name]; ok {
+		return r
+	}
+	res := true
+	up := l.ByPath[modPath]
+	var obj *types.Interface
+	if up != nil {
+		if tn, ok := up.Types.Scope().Lookup("Object").(*types.TypeName); ok {
+			obj, _ = tn.Type().Underlying().(*types.Interface)
+		}
+	}
+	if obj == nil {
+		shallowMemo[name] = false
+		return false
+	}
+	var pure func(f *ssa.Function, depth int) bool
+	pure = func(f *ssa.Function, depth int) bool {
+		if f == nil || len(f.Blocks) == 0 {
+			// no body: a standard library function is accepted (it cannot call back into an Object it was not given)
+			return f != nil && !strings.HasPrefix(funcPkgPath(f), modPath)
+		}
+		if depth > 3 {
+			return false
+		}
+		ok := true
+		eachInstr(f, func(ins ssa.Instruction) {
+			ci, isCall := ins.(ssa.CallInstruction)
+			if !isCall {
+				return
+			}
+			cc := ci.Common()
+			if cc.IsInvoke() {
+				ok = false
+				return
+			}
+			g := cc.StaticCallee()
+			if g == nil {
+				if _, isB := cc.Value.(*ssa.Builtin); !isB {
+					ok = false
+				}
+				return
+			}
+			if strings.HasPrefix(funcPkgPath(g), modPath) && !pure(g, depth+1) {
+				ok = false
+			}
+			// an Object handed to a standard library function (fmt.Sprint) is formatted through its methods
+			if !strings.HasPrefix(funcPkgPath(g), modPath) {
+				for _, a := range cc.Args {
+					if _, isI := a.Type().Underlying().(*types.Interface); isI {
+						ok = false
+					}
+					if sl, isS := a.Type().Underlying().(*types.Slice); isS {
+						if _, isI := sl.Elem().Underlying().(*types.Interface); isI {
+							ok = false
+						}
+					}
+				}
+			}
+		})
+		return ok
+	}
+	n := 0
+	for _, p := range l.Pkgs {
+		if !isLibPkg(p.PkgPath) {
+			continue
+		}
+		for _, nm := range p.Types.Scope().Names() {
+			tn, ok := p.Types.Scope().Lookup(nm).(*types.TypeName)
+			if !ok || tn.IsAlias() {
+				continue
+			}
+			if _, isI := tn.Type().Underlying().(*types.Interface); isI {
+				continue
+			}
+			for _, t := range []types.Type{tn.Type(), types.NewPointer(tn.Type())} {
+				if !types.Implements(t, obj) {
+					continue
+				}
+				sel := types.NewMethodSet(t).Lookup(p.Types, name)
+				if sel == nil {
+					continue
+				}
+				n++
+				if f := l.Prog.MethodValue(sel); !pure(f, 0) {
+					res = false
+				}
+				break
+			}
+		}
+	}
+	if n == 0 {
+		res = false
+	}
+	shallowMemo[name] = res
+	return res
 }
